@@ -159,7 +159,7 @@ def check_rankfrequency(case, rec):
     rec.note(case, len(vals) < len(data) and len(set(vals)) >= 2, ["nan" if len(vals) < len(data) else "no_nan", f"nx={nx}", f"ny={ny}"])
     try:
         fig, ax = plt.subplots()
-        arr = np.array(data, dtype=float) if case.get("as") == "array" else (pd.Series(data, index=[f"c{i}" for i in range(len(data))]) if case.get("as") == "series" else data)
+        arr = np.array(data, dtype={"uint8": np.uint8, "uint32": np.uint32, "uint64": np.uint64, "int32": np.int32}[case["as"]]) if case.get("as") in ("uint8", "uint32", "uint64", "int32") else np.array(data, dtype=float) if case.get("as") == "array" else (pd.Series(data, index=[f"c{i}" for i in range(len(data))]) if case.get("as") == "series" else data)
         lines = call("rankfrequency", PL.rankfrequency, arr, ax=ax, normalize_x=nx, normalize_y=ny, scalex=sx, scaley=sy)
         line = lines[0]
         xs, ys = [float(v) for v in line.get_xdata()], [float(v) for v in line.get_ydata()]
@@ -338,6 +338,12 @@ def rank_case(draw, tier="quick"):
                                    st.floats(0.5, 50).map(lambda v: round(v, 3))), min_size=n, max_size=n))
     if all(v is None for v in data):
         data.append(3)
+    if draw(st.integers(0, 3)) == 0:
+        # integer count arrays as np.bincount / value_counts deliver them, unobserved clones (zeros) included
+        data = draw(st.lists(st.sampled_from([0, 0, 1, 1, 2, 3, 7, 200, 255]), min_size=max(2, n), max_size=max(2, n)))
+        return {"data": data, "normalize_x": draw(st.booleans()) and sum(data) > 0, "normalize_y": draw(st.booleans()),
+                "scalex": draw(st.sampled_from([1.0, 1.0, 2.0])), "scaley": draw(st.sampled_from([1.0, 3.0])),
+                "as": draw(st.sampled_from(["uint8", "uint32", "uint64", "int32"]))}
     return {"data": data, "normalize_x": draw(st.booleans()), "normalize_y": draw(st.booleans()),
             "scalex": draw(st.sampled_from([1.0, 1.0, 2.0, 0.5, 1000.0])), "scaley": draw(st.sampled_from([1.0, 1.0, 3.0, 0.25])),
             "as": draw(st.sampled_from(["list", "array", "series"]))}
